@@ -20,18 +20,29 @@ class TopologicalSortPass(ir.passes.InPlacePass):
     """
 
     def call(self, model: ir.Model) -> ir.passes.PassResult:
-        original_nodes = list(model.graph)
-        model.graph.sort()
-        sorted_nodes = list(model.graph)
-        for function in model.functions.values():
-            original_nodes.extend(function)
-            function.sort()
-            sorted_nodes.extend(function)
+        def nodes_and_names() -> list[tuple[ir.Node, str | None, tuple[str | None, ...]]]:
+            # Sorting reorders nested subgraphs too, and adding nodes back to a graph
+            # names the ones that are unnamed: both change how the model serializes.
+            nodes = list(model.graph.all_nodes())
+            for function in model.functions.values():
+                nodes.extend(function.all_nodes())
+            return [
+                (node, node.name, tuple(output.name for output in node.outputs))
+                for node in nodes
+            ]
 
-        # Compare node orders to determine if any changes were made
-        modified = False
-        for node, new_node in zip(original_nodes, sorted_nodes):
-            if node is not new_node:
+        original = nodes_and_names()
+        model.graph.sort()
+        for function in model.functions.values():
+            function.sort()
+        result = nodes_and_names()
+
+        # Compare node orders (and names) to determine if any changes were made
+        modified = len(original) != len(result)
+        for (node, name, output_names), (new_node, new_name, new_output_names) in zip(
+            original, result
+        ):
+            if node is not new_node or name != new_name or output_names != new_output_names:
                 modified = True
                 break
         return ir.passes.PassResult(model=model, modified=modified)
